@@ -123,6 +123,8 @@ enum Job {
 	Short { sc: usize, j: usize, mode: u8 },
 	Leave { sc: usize, k: usize, cap: i32 },
 	DevFull { sc: usize },
+	/// EPIPE from write #j on, with SIGPIPE blocked in the mask xt inherits
+	BlockedPipe { sc: usize, j: usize },
 }
 
 pub fn run(ctx: &Ctx) -> CheckOutput {
@@ -154,6 +156,9 @@ pub fn run(ctx: &Ctx) -> CheckOutput {
 		for &j in &js {
 			for errno in [EPIPE, ENOSPC, EIO] {
 				jobs.push(Job::Errno { sc: i, j, errno, release: j % 2 == 0 });
+			}
+			if j % 3 == 0 || j + 1 == calls {
+				jobs.push(Job::BlockedPipe { sc: i, j });
 			}
 			jobs.push(Job::Short { sc: i, j, mode: 1 });
 			jobs.push(Job::Short { sc: i, j, mode: 2 });
@@ -203,6 +208,19 @@ pub fn run(ctx: &Ctx) -> CheckOutput {
 						format!("{}: write #{j} accepts only {} bytes: {} with {} bytes (want exit 0 with {})", scs[*sc].name, if *mode == 1 { "1".to_string() } else { "len-1".to_string() }, o.exit, o.stdout.len(), clean[*sc].1.len()));
 				}
 			}
+			Job::BlockedPipe { sc, j } => {
+				let mut sp = spawn_for(&dir, &scs[*sc], j % 2 == 0);
+				sp.block_sigpipe = true;
+				with_shim(&mut sp, &[("WFAULT_AT", j.to_string()), ("WFAULT_ERRNO", EPIPE.to_string())]);
+				let o = proc::run(&sp);
+				t.count("epipe-with-sigpipe-blocked");
+				// the signal cannot end the process here; what remains of the property: no message, never status 0
+				let good = matches!(o.exit, Exit::Signal(13) | Exit::Code(1)) && o.stderr.is_empty();
+				if !good {
+					t.bad("broken-pipe-reported-when-sigpipe-is-blocked", json!({"kind": "blocked-pipe", "scenario": scs[*sc].name, "args": scs[*sc].args, "write_index": j}),
+						format!("{} ({:?}) with SIGPIPE blocked in the inherited mask: write #{j} on stdout fails with EPIPE: {}", scs[*sc].name, scs[*sc].args, o.brief()));
+				}
+			}
 			Job::DevFull { sc } => {
 				let mut sp = spawn_for(&dir, &scs[*sc], true);
 				sp.stdout = Stdout::DevFull;
@@ -235,17 +253,18 @@ pub fn run(ctx: &Ctx) -> CheckOutput {
 				Job::Short { sc, j, mode } => json!({"scenario": scs[*sc].name, "write_index": j, "short_mode": mode}),
 				Job::Leave { sc, k, cap } => json!({"scenario": scs[*sc].name, "consumer_takes": k, "pipe_capacity": cap}),
 				Job::DevFull { sc } => json!({"scenario": scs[*sc].name, "stdout": "/dev/full"}),
+				Job::BlockedPipe { sc, j } => json!({"scenario": scs[*sc].name, "write_index": j, "sigpipe": "blocked"}),
 			});
 		}
 	});
 	let mut tally = Tally::merge_all(tallies);
 	tally.add("write-calls-enumerated", clean.iter().map(|c| c.0 as u64).sum());
 	let req = |k: &str| (k.to_string(), *tally.counters.get(k).unwrap_or(&0));
-	let required = vec![req("errno:32"), req("errno:28"), req("errno:5"), req("short-writes"), req("devfull"), req("consumer-leaves-after-k"), req("consumer-left-while-xt-blocked-in-write"), req("consumer-gone-before-start")];
+	let required = vec![req("errno:32"), req("errno:28"), req("errno:5"), req("short-writes"), req("devfull"), req("consumer-leaves-after-k"), req("consumer-left-while-xt-blocked-in-write"), req("consumer-gone-before-start"), req("epipe-with-sigpipe-blocked")];
 	CheckOutput {
 		level: "fault_enumeration",
 		tally,
-		rule: "scenarios: every target x {40 B, 8 KiB-1/8 KiB/8 KiB+1, documents that fill the 8 KiB stdout buffer exactly, 3 x 64 KiB} outputs (TOML: 40 B, 9 KB and 200 KB single documents) x file and stdin input, 1 and 3 inputs (incl. '-' in the middle). A dry run under the LD_PRELOAD shim counts the write(2)/writev(2) calls on fd 1 (J); then for EVERY call index j call j and all later ones fail with EPIPE / ENOSPC / EIO, and call j alone is short (1 byte; len-1). Oracle: EPIPE => killed by SIGPIPE with empty stderr, never exit 0; other errno => exit 1 with an 'xt error' line; short writes => exit 0 and the full output. Real pipe: the harness is the consumer, takes exactly k bytes, waits until /proc/<pid>/syscall shows xt blocked in write(1, ..), then closes (4 KiB pipe: k over 0..16384; 64 KiB pipe: around each capacity multiple), and a consumer gone before xt starts. /dev/full => exit 1 with a message.".into(),
+		rule: "scenarios: every target x {40 B, 8 KiB-1/8 KiB/8 KiB+1, documents that fill the 8 KiB stdout buffer exactly, 3 x 64 KiB} outputs (TOML: 40 B, 9 KB and 200 KB single documents) x file and stdin input, 1 and 3 inputs (incl. '-' in the middle). A dry run under the LD_PRELOAD shim counts the write(2)/writev(2) calls on fd 1 (J); then for EVERY call index j call j and all later ones fail with EPIPE / ENOSPC / EIO, and call j alone is short (1 byte; len-1). Oracle: EPIPE => killed by SIGPIPE with empty stderr, never exit 0 (with SIGPIPE blocked in the inherited mask, every third j: SIGPIPE or status 1, still nothing on stderr); other errno => exit 1 with an 'xt error' line; short writes => exit 0 and the full output. Real pipe: the harness is the consumer, takes exactly k bytes, waits until /proc/<pid>/syscall shows xt blocked in write(1, ..), then closes (4 KiB pipe: k over 0..16384; 64 KiB pipe: around each capacity multiple), and a consumer gone before xt starts. /dev/full => exit 1 with a message.".into(),
 		exhaustive: thorough,
 		bounds: json!({"write_indices": "all", "close_points": if thorough { "every k in 0..=16384" } else { "every k in 0..=4200, every 13th up to 16384, buffer edges" }}),
 		assumptions: vec![
